@@ -131,8 +131,8 @@ impl Expression {
             Self::LongLiteral(n) => {
                 if n <= MIN_LONG {
                     Self::DoubleLiteral(-n as f64)
-                } else if -n >= MIN_INTEGER as i64 {
-                    // -32768 fits in an integer
+                } else if -n == MIN_INTEGER as i64 {
+                    // -32768 fits in an integer (no other negated long does)
                     Self::IntegerLiteral(-n as i32)
                 } else {
                     Self::LongLiteral(-n)
